@@ -6,6 +6,7 @@ import (
 	"github.com/canopy-network/canopy/lib"
 	"github.com/canopy-network/canopy/lib/crypto"
 	"google.golang.org/protobuf/proto"
+	"math"
 	"slices"
 )
 
@@ -664,6 +665,9 @@ func (x *MessageEditOrder) Check() lib.ErrorI {
 	if x.AmountForSale == 0 || x.RequestedAmount == 0 {
 		return ErrInvalidAmount()
 	}
+	if err := checkOrderId(x.OrderId); err != nil {
+		return err
+	}
 	return checkExternalAddress(x.SellerReceiveAddress)
 }
 
@@ -712,7 +716,12 @@ func (x *MessageDeleteOrder) Name() string      { return MessageDeleteOrderName 
 func (x *MessageDeleteOrder) Recipient() []byte { return nil }
 
 // Check() validates the Message structure
-func (x *MessageDeleteOrder) Check() lib.ErrorI { return checkChainId(x.ChainId) }
+func (x *MessageDeleteOrder) Check() lib.ErrorI {
+	if err := checkOrderId(x.OrderId); err != nil {
+		return err
+	}
+	return checkChainId(x.ChainId)
+}
 
 // MarshalJSON() is the json.Marshaller implementation for MessageEditOrder
 func (x *MessageDeleteOrder) MarshalJSON() ([]byte, error) {
@@ -1013,6 +1022,16 @@ func checkStartEndHeight(proposal GovProposal) lib.ErrorI {
 	}
 	if endHeight-startHeight > 10000 {
 		return ErrInvalidBlockRange()
+	}
+	return nil
+}
+
+// checkOrderId() validates the order id of a message that references an existing order
+// NOTE: an order id is one segment of a length prefixed state key, a segment longer than one length byte can express
+// would produce a corrupt key (and a panic in the store) when the order is looked up
+func checkOrderId(orderId []byte) lib.ErrorI {
+	if len(orderId) > math.MaxUint8 {
+		return InvalidSellOrder()
 	}
 	return nil
 }
